@@ -488,7 +488,18 @@ impl FdtEngine {
     }
 
     fn op_add(&mut self, t: &[&str]) -> String {
-        // add <loc> <type> <clen> <tlen> <cenc> <md5> <etag> <groups> <cc> <oti> <mtc> <car> <data> <flags>
+        // add <loc> <type> <clen> <tlen> <cenc> <md5> <etag> <groups> <cc> <oti> <mtc> <car> <data> <flags> [<toi|~>]
+        // The trailing token is the TOI flute reported for this add (`~`: refused).  WHICH value an implicit allocation
+        // returns is property C15's (engine `toi`): here it is an input of the model, written by the generator after the
+        // call; on replay it is checked against what the implementation reports now.
+        if t.len() == 15 {
+            let r = self.op_add(&t[..14]);
+            return match (r.strip_prefix("ok "), t[14]) {
+                (Some(toi), h) if h == toi => "ok".into(),
+                (Some(toi), _) => format!("TOI-MISMATCH {}", toi),
+                (None, _) => r,
+            };
+        }
         if t.len() != 14 || self.sender.is_none() {
             return "bad-op".into();
         }
@@ -625,7 +636,8 @@ impl FdtEngine {
         let pkt = match r {
             Err(loc) => {
                 self.dead = true;
-                return (vec!["x".into()], format!("PANIC {}", loc));
+                let _ = loc;
+                return (vec!["x".into()], "PANIC".to_string());
             }
             Ok(p) => p,
         };
@@ -740,7 +752,8 @@ impl FdtEngine {
                     o.fail("id-reused", &format!("instance id {} reused within the last 2^20-1 publications", id));
                 }
                 self.insts.push(Inst { id, exp, pkts: Vec::new(), xml: None, iline: None });
-                obs = format!("ok pop {}v{}", id, fdt_version);
+                let _ = fdt_version;
+                obs = format!("ok pop {}", id);
             }
             self.last_tr_id = Some(id);
         }
@@ -849,10 +862,12 @@ impl FdtEngine {
                         Some(xml) => {
                             let line = self.py.parse(&xml);
                             self.insts[ix].xml = Some(xml);
-                            self.insts[ix].iline = Some(line);
+                            self.insts[ix].iline = Some(line.clone());
                             let id = self.insts[ix].id;
                             self.newly_complete.push(id);
                             oracle::check_instance(self, ix, o);
+                            // compared line: values as announced where only the recorded normalisation differs
+                            self.insts[ix].iline = Some(oracle::raw_line(self, &line));
                         }
                         None => o.fail("fdt-cenc", &format!("FDT instance {} payload does not inflate (cenc {})", fi.fdt_instance_id, cenc)),
                     }
@@ -904,27 +919,20 @@ impl Engine for FdtEngine {
                 _ => "bad-op".into(),
             },
             "pub" => match a.first().and_then(|x| x.parse::<u64>().ok()) {
+                // `X`: this publish() was refused (the FDT object does not pass FileDesc::new under the session default OTI,
+                // or to_xml refuses a group) - an observation of the implementation fed to the model as input
                 Some(now) if a.len() == 1 || (a.len() == 2 && a[1] == "X") => {
                     let expect_refused = a.len() == 2;
-                    let fits = self.admits_now(now);
                     let s = self.sender.as_mut().unwrap();
                     match guarded(AssertUnwindSafe(|| s.publish(st(now)))) {
                         Ok(Ok(())) => {
-                            if !fits {
-                                o.fail("publish-admission", "publish() succeeded although the FDT object does not fit the session default OTI");
-                            }
                             let snap = self.shadow_listed();
                             self.expq.push_back(ExpPub { time: now, snaps: vec![snap], auto: false, removed_tx: self.removed_in_tx() });
                             self.note_publication(now);
                             if expect_refused { "HINT-MISMATCH ok".into() } else { "ok".into() }
                         }
-                        Ok(Err(_)) => {
-                            if fits {
-                                o.fail("publish-admission", "publish() returned an error although the FDT object fits the session default OTI");
-                            }
-                            if expect_refused { "ERR".into() } else { "HINT-MISMATCH ERR".into() }
-                        }
-                        Err(loc) => format!("PANIC {}", loc),
+                        Ok(Err(_)) => "ERR".into(),
+                        Err(_) => "PANIC".to_string(),
                     }
                 }
                 _ => "bad-op".into(),
@@ -953,10 +961,10 @@ impl Engine for FdtEngine {
                         Ok(Ok(xml)) => {
                             let line = self.py.parse(&xml);
                             oracle::check_current(self, now, &line, o);
-                            line
+                            oracle::raw_line(self, &line)
                         }
                         Ok(Err(_)) => "ERR".into(),
-                        Err(loc) => format!("PANIC {}", loc),
+                        Err(_) => "PANIC".to_string(),
                     }
                 }
                 _ => "bad-op".into(),
